@@ -39,8 +39,17 @@ typedef amgcl::amg<B, amgcl::coarsening::smoothed_aggregation, amgcl::relaxation
 static vr::opstream S;
 
 struct problem {
-    std::shared_ptr<crsd> A, A2, Abad; vec f1, f2, guess, xstar, fnan, zero, funit; int n;
+    std::shared_ptr<crsd> A, A2, Abad, Ar, Aun; vec f1, f2, guess, xstar, fnan, zero, funit; int n;
 };
+// exact solution of A x = f by dense elimination in long double
+static vec dense_solve(const crsd &A, const vec &f) {
+    int n = A.nrows;
+    std::vector<long double> M((size_t)n * n, 0.0L), b(f.begin(), f.end());
+    for (int i = 0; i < n; ++i) for (ptrdiff_t q = A.ptr[i]; q < A.ptr[i+1]; ++q) M[(size_t)i * n + A.col[q]] += A.val[q];
+    for (int k = 0; k < n; ++k) { for (int i = k + 1; i < n; ++i) { long double m = M[(size_t)i*n+k] / M[(size_t)k*n+k]; if (m == 0) continue; for (int j = k; j < n; ++j) M[(size_t)i*n+j] -= m * M[(size_t)k*n+j]; b[i] -= m * b[k]; } }
+    vec x(n); for (int i = n - 1; i >= 0; --i) { long double t = b[i]; for (int j = i + 1; j < n; ++j) t -= M[(size_t)i*n+j] * x[j]; x[i] = (double)(t / M[(size_t)i*n+i]); }
+    return x;
+}
 static problem make_problem(vr::rng &g) {
     problem p; p.A = vr::poisson2d(g.range(7, 10), g.range(6, 9)); p.n = p.A->nrows;
     p.A2 = std::make_shared<crsd>(*p.A); for (size_t i = 0; i < p.A2->nrows; ++i) for (ptrdiff_t q = p.A2->ptr[i]; q < p.A2->ptr[i+1]; ++q) if (p.A2->col[q] == (ptrdiff_t)i) p.A2->val[q] += 0.5 + (i % 3) * 0.25;
@@ -49,20 +58,32 @@ static problem make_problem(vr::rng &g) {
     for (int i = 0; i < n; ++i) { p.f1[i] = g.unit() + 0.1; p.f2[i] = std::sin(0.37 * i) + g.unit(); p.guess[i] = g.unit() - 0.5; }
     p.fnan = p.f1; p.fnan[n / 2] = std::nan("");
     p.funit.assign(n, 0.0); p.funit[(2 * n) / 3] = 1.0;      // point source: exactly zero almost everywhere
-    // exact solution of A x = f1 by dense elimination in long double
-    std::vector<long double> M((size_t)n * n, 0.0L), b(p.f1.begin(), p.f1.end());
-    for (int i = 0; i < n; ++i) for (ptrdiff_t q = p.A->ptr[i]; q < p.A->ptr[i+1]; ++q) M[(size_t)i * n + p.A->col[q]] += p.A->val[q];
-    for (int k = 0; k < n; ++k) { for (int i = k + 1; i < n; ++i) { long double m = M[(size_t)i*n+k] / M[(size_t)k*n+k]; if (m == 0) continue; for (int j = k; j < n; ++j) M[(size_t)i*n+j] -= m * M[(size_t)k*n+j]; b[i] -= m * b[k]; } }
-    p.xstar.resize(n); for (int i = n - 1; i >= 0; --i) { long double s = b[i]; for (int j = i + 1; j < n; ++j) s -= M[(size_t)i*n+j] * p.xstar[j]; p.xstar[i] = (double)(s / M[(size_t)i*n+i]); }
+    p.xstar = dense_solve(*p.A, p.f1);
+    // the matrix a "rebuild" call switches to: 4 A.  rebuild() keeps the transfer operators of the hierarchy, so
+    // only for a matrix whose transfer operators are the same (an exact power-of-two multiple) is the rebuilt
+    // object required to act like a freshly constructed one, bit for bit
+    p.Ar = std::make_shared<crsd>(*p.A); for (ptrdiff_t q = 0; q < (ptrdiff_t)p.Ar->nnz; ++q) p.Ar->val[q] *= 4.0;
+    // ... and the system matrix once more with every row stored diagonal-first (valid CRS, rows not sorted):
+    // handed over by shared_ptr, which amg uses as it is and must not modify
+    p.Aun = std::make_shared<crsd>(*p.A);
+    for (size_t i = 0; i < p.Aun->nrows; ++i) for (ptrdiff_t q = p.Aun->ptr[i]; q < p.Aun->ptr[i+1]; ++q) if (p.Aun->col[q] == (ptrdiff_t)i) {
+        for (ptrdiff_t t = q; t > p.Aun->ptr[i]; --t) { std::swap(p.Aun->col[t], p.Aun->col[t-1]); std::swap(p.Aun->val[t], p.Aun->val[t-1]); } break; }
     return p;
 }
+
+static problem rebuilt(const problem &p) { problem r = p; r.A = p.Ar; r.Ar = p.A; r.xstar = dense_solve(*r.A, r.f1); return r; }
+
+template <class P> static auto try_rebuild(P &q, const crsd &A, int) -> decltype(q.rebuild(A), bool()) { q.rebuild(A); return true; }
+template <class P> static bool try_rebuild(P &, const crsd &, long) { return false; }
+template <class P> static auto allow_rebuild(P &q, int) -> decltype((void)q.allow_rebuild) { q.allow_rebuild = true; }
+template <class P> static void allow_rebuild(P &, long) {}
 
 static bool g_relax_coarse = false;     // build the next preconditioner with direct_coarse = false
 template <class P> static auto relaxcoarse(P &q, int) -> decltype((void)q.direct_coarse) { q.direct_coarse = !g_relax_coarse; }
 template <class P> static void relaxcoarse(P &, long) {}
 
 // multi-level hierarchies even on these small problems
-template <class P> static auto pprm(int) -> decltype((void)typename P::params().coarse_enough, typename P::params()) { typename P::params q; q.coarse_enough = 8; relaxcoarse(q, 0); return q; }
+template <class P> static auto pprm(int) -> decltype((void)typename P::params().coarse_enough, typename P::params()) { typename P::params q; q.coarse_enough = 8; relaxcoarse(q, 0); allow_rebuild(q, 0); return q; }
 template <class P> static typename P::params pprm(long) { return typename P::params(); }
 
 struct outcome { vec x; size_t it = 0; double res = 0; bool threw = false; };
@@ -90,13 +111,16 @@ template <class P> struct poisoning {
 };
 
 // ---------------------------------------------------------------- object kinds
-struct object { virtual ~object() {} virtual outcome call(const std::string &kind, const problem &p, vec *xbuf = 0) = 0; virtual bool has_tol() const { return true; } };
+struct object { virtual ~object() {} virtual outcome call(const std::string &kind, const problem &p, vec *xbuf = 0) = 0; virtual bool has_tol() const { return true; }
+    // switch the object to the matrix of `target` (amg::rebuild); false = this kind of object has no rebuild
+    virtual bool rebuild(const problem &target) { (void)target; return false; } };
 
 template <class Solver, class Precond>
 struct krylov : object {
     Precond P; Solver Sv; bool tol;
     krylov(const problem &p, const typename Solver::params &sp, bool tol = true) : P(*p.A, pprm<Precond>(0)), Sv(p.n, sp), tol(tol) {}
     bool has_tol() const override { return tol; }
+    bool rebuild(const problem &t) override { return try_rebuild(P, *t.A, 0); }
     outcome call(const std::string &kind, const problem &p, vec *xbuf = 0) override {
         outcome o; vec own; vec &X = xbuf ? *xbuf : own; X.assign(p.n, 0.0);
         try {
@@ -120,7 +144,9 @@ struct krylov : object {
 template <class Precond>
 struct precond_only : object {      // amg / as_preconditioner: apply()
     Precond P; precond_only(const problem &p) : P(*p.A, pprm<Precond>(0)) {}
+    precond_only(const problem &p, std::shared_ptr<crsd> shared) : P(shared, pprm<Precond>(0)) { (void)p; }     // non-copying constructor
     bool has_tol() const override { return false; }
+    bool rebuild(const problem &t) override { return try_rebuild(P, *t.A, 0); }
     outcome call(const std::string &kind, const problem &p, vec *xbuf = 0) override {
         outcome o; vec own; vec &X = xbuf ? *xbuf : own; X.assign(p.n, 7.25);
         const vec &f = kind == "solve" || kind == "converged_guess" || kind == "throw_inside" || kind == "throw_late" ? p.f1 : kind == "zero_rhs" ? p.zero : kind == "solve_unit" ? p.funit : kind == "nan_rhs" || kind == "poison_inside" ? p.fnan : p.f2;
@@ -134,8 +160,10 @@ template <class Precond>
 struct precond_scaled : object {
     std::shared_ptr<crsd> As; Precond P;
     static std::shared_ptr<crsd> scaled(const problem &p, double s) { auto M = std::make_shared<crsd>(*p.A); amgcl::backend::scale(*M, s); return M; }
-    precond_scaled(const problem &p, double s) : As(scaled(p, s)), P(*As, pprm<Precond>(0)) {}
+    double sc;
+    precond_scaled(const problem &p, double s) : As(scaled(p, s)), P(*As, pprm<Precond>(0)), sc(s) {}
     bool has_tol() const override { return false; }
+    bool rebuild(const problem &t) override { As = scaled(t, sc); return try_rebuild(P, *As, 0); }
     outcome call(const std::string &kind, const problem &p, vec *xbuf = 0) override {
         outcome o; vec own; vec &X = xbuf ? *xbuf : own; X.assign(p.n, 7.25);
         const vec &f = kind == "solve" || kind == "converged_guess" || kind == "throw_inside" || kind == "throw_late" ? p.f1 : kind == "zero_rhs" ? p.zero : kind == "solve_unit" ? p.funit : kind == "nan_rhs" || kind == "poison_inside" ? p.fnan : p.f2;
@@ -155,6 +183,8 @@ struct skyline : object {
 template <class MS>
 struct bundled : object {           // make_solver: operator()(rhs, x) and operator()(A, rhs, x)
     MS ms; bundled(const problem &p, const typename MS::params &prm) : ms(*p.A, prm) {}
+    bundled(const problem &p, std::shared_ptr<crsd> shared, const typename MS::params &prm) : ms(shared, prm) { (void)p; }
+    bool rebuild(const problem &t) override { return try_rebuild(ms.precond(), *t.A, 0); }
     outcome call(const std::string &kind, const problem &p, vec *xbuf = 0) override {
         outcome o; vec own; vec &X = xbuf ? *xbuf : own; X.assign(p.n, 0.0);
         try {
@@ -198,9 +228,14 @@ static std::vector<std::pair<std::string, factory>> kinds() {
       for (int k = 0; k < 8; ++k) { double f = sc[k];
         v.push_back({"as_preconditioner-chebyshev-scale" + std::to_string(k), [f](const problem &p) { return std::unique_ptr<object>(new precond_scaled<amgcl::relaxation::as_preconditioner<B, amgcl::relaxation::chebyshev>>(p, f)); }});
         v.push_back({"amg-sa-chebyshev-scale" + std::to_string(k), [f](const problem &p) { return std::unique_ptr<object>(new precond_scaled<AMG3>(p, f)); }}); } }
+    // the caller's matrix handed over by shared_ptr with unsorted rows: used as it is, never modified
+    v.push_back({"amg-sa-spai0-shared-unsorted", [](const problem &p) { return std::unique_ptr<object>(new precond_only<AMG1>(p, p.Aun)); }});
+    v.push_back({"amg-sa-chebyshev-shared-unsorted", [](const problem &p) { return std::unique_ptr<object>(new precond_only<AMG3>(p, p.Aun)); }});
     v.push_back({"skyline_lu", [](const problem &p) { return std::unique_ptr<object>(new skyline(p)); }});
     { typedef amgcl::make_solver<AMG1, gmres<B>> MS; MS::params prm; prm.solver.M = 5; prm.precond.coarse_enough = 8;
-      v.push_back({"make_solver-amg-gmres", [prm](const problem &p) { return std::unique_ptr<object>(new bundled<MS>(p, prm)); }}); }
+      prm.precond.allow_rebuild = true;
+      v.push_back({"make_solver-amg-gmres", [prm](const problem &p) { return std::unique_ptr<object>(new bundled<MS>(p, prm)); }});
+      v.push_back({"make_solver-amg-gmres-shared-unsorted", [prm](const problem &p) { return std::unique_ptr<object>(new bundled<MS>(p, p.Aun, prm)); }}); }
     return v;
 }
 
@@ -216,29 +251,52 @@ int main(int argc, char **argv) {
     problem p = make_problem(g);
     auto ks = kinds();
     if (mode == "hist") {
-        // fresh results, one per (object kind, call kind)
+        // fresh results, one per (object kind, call kind, matrix version); a "rebuild" call switches the object
+        // between the matrix it was built for (version 0) and Ar (version 1): every later call must give what
+        // the same call gives on an object freshly constructed for the current matrix
+        problem pv[2] = {p, rebuilt(p)};
+        auto digest_inputs = [&]() { vr::digest d; for (auto &M : {p.A, p.A2, p.Ar, p.Aun}) { d.vec(M->val, M->nnz); d.vec(M->col, M->nnz); d.vec(M->ptr, M->nrows + 1); }
+            d.vec(p.f1.data(), p.n); d.vec(p.f2.data(), p.n); d.vec(p.zero.data(), p.n); d.vec(p.fnan.data(), p.n); d.vec(p.funit.data(), p.n); return d.h; };
         for (auto &k : ks) {
-            std::map<std::string, outcome> fresh;
-            vr::digest in0; in0.vec(p.A->val, p.A->nnz); in0.vec(p.A->col, p.A->nnz); in0.vec(p.A2->val, p.A2->nnz); in0.vec(p.f1.data(), p.n); in0.vec(p.f2.data(), p.n); in0.vec(p.zero.data(), p.n); in0.vec(p.fnan.data(), p.n);
+            std::map<std::pair<std::string, int>, outcome> fresh;
+            uint64_t in0 = digest_inputs();
+            bool shared = k.first.find("shared") != std::string::npos;
             for (auto &h : hists) {
                 auto obj = k.second(p);
+                int ver = 0;
                 for (size_t i = 0; i < h.size(); ++i) {
                     const std::string &c = h[i];
-                    if (!fresh.count(c)) { auto fo = k.second(p); fresh[c] = fo->call(c, p); }
-                    outcome o = obj->call(c, p);
-                    const outcome &f = fresh[c];
-                    bool allzero = true; for (double v : o.x) if (v != 0.0) allzero = false;
-                    bool unchanged = std::memcmp(o.x.data(), p.xstar.data(), p.n * 8) == 0;
-                    vr::digest in1; in1.vec(p.A->val, p.A->nnz); in1.vec(p.A->col, p.A->nnz); in1.vec(p.A2->val, p.A2->nnz); in1.vec(p.f1.data(), p.n); in1.vec(p.f2.data(), p.n); in1.vec(p.zero.data(), p.n); in1.vec(p.fnan.data(), p.n);
                     std::string hs; for (size_t q = 0; q < h.size(); ++q) hs += (q ? "," : "") + h[q];
-                    vr::obj o2; o2.str("k", "call").str("obj", k.first).str("hist", hs).i("i", i + 1).str("call", c).b("tol", obj->has_tol());
-                    o2.b("same", same(o, f)).b("threw", o.threw).i("it", o.it).b("allzero", allzero).b("unchanged", unchanged).b("inputs", in0.h == in1.h);
+                    if (c == "rebuild") {
+                        bool threw = false, did = false;
+                        // (objects built from the unsorted shared matrix keep transfer operators computed in that entry order; a fresh
+                        //  twin for the other matrix would differ by rounding, so they are not rebuilt)
+                        try { did = !shared && obj->rebuild(pv[1 - ver]); } catch (const std::exception &) { threw = true; }
+                        if (did) ver = 1 - ver;
+                        vr::obj o2; o2.str("k", "call").str("obj", k.first).str("hist", hs).i("i", i + 1).str("call", c).b("tol", obj->has_tol()).i("ver", ver);
+                        o2.b("same", !threw).b("threw", threw).i("it", 0).b("allzero", false).b("unchanged", false).b("inputs", in0 == digest_inputs());
+                        vr::emit(o2.done());
+                        continue;
+                    }
+                    const problem &pc = pv[ver];
+                    auto key = std::make_pair(c, ver);
+                    if (!fresh.count(key)) {
+                        // an object built by the non-copying constructor has no fresh twin for the other matrix: build the twin the copying way
+                        fresh[key] = k.second(pc)->call(c, pc);
+                    }
+                    outcome o = obj->call(c, pc);
+                    const outcome &f = fresh[key];
+                    bool allzero = true; for (double v : o.x) if (v != 0.0) allzero = false;
+                    bool unchanged = std::memcmp(o.x.data(), pc.xstar.data(), p.n * 8) == 0;
+                    vr::obj o2; o2.str("k", "call").str("obj", k.first).str("hist", hs).i("i", i + 1).str("call", c).b("tol", obj->has_tol()).i("ver", ver);
+                    o2.b("same", same(o, f)).b("threw", o.threw).i("it", o.it).b("allzero", allzero).b("unchanged", unchanged).b("inputs", in0 == digest_inputs());
                     vr::emit(o2.done());
                 }
             }
         }
     } else {
         // op stream of whole histories on one object each (construction = setup phase)
+        problem pvo[2] = {p, rebuilt(p)};
         amgcl::verif::current() = &S;
         size_t stride = std::max<size_t>(1, hists.size() / (vr::thorough() ? 60 : 14));
         for (auto &k : ks) {
@@ -247,10 +305,10 @@ int main(int argc, char **argv) {
                 auto &h = hists[hi];
                 S.reset(); { vr::obj o; o.str("e", "Reset").str("obj", k.first); vr::emit(o.done()); }
                 S.on = true; auto obj = k.second(p); S.on = false;
-                vec xbuf(p.n, 0.0);
+                vec xbuf(p.n, 0.0); int vero = 0;
                 for (auto &c : h) {
                     { vr::obj o; o.str("e", "begin").str("call", c); int xi[1] = {S.id(amgcl::verif::id(xbuf))}; o.ints("ins", xi, xi + 1).ints("clob", xi, xi + 1); vr::emit(o.done()); }
-                    S.on = true; obj->call(c, p, &xbuf); S.on = false;
+                    S.on = true; if (c == "rebuild") { if (k.first.find("shared") == std::string::npos && obj->rebuild(pvo[1 - vero])) vero = 1 - vero; } else obj->call(c, pvo[vero], &xbuf); S.on = false;
                     { vr::obj o; o.str("e", "end"); vr::emit(o.done()); }
                 }
             }
